@@ -1,7 +1,7 @@
 SPECIFICATION TSpec
 CONSTANTS
   TraceFile = "trace.ndjson"
-  Arrivals = TRUE
+  Arrivals = FALSE
 CONSTRAINT Progress
 POSTCONDITION Accepted
 CHECK_DEADLOCK FALSE
